@@ -22,4 +22,17 @@ PROPS = {
         "trusted": INPUT_TRUST,
         "assumptions": ["the reader goroutine's cancellation (ctx.Done arm of the send) is covered by the C04 scenarios, not by this model"],
     },
+    "C01": {"modules": [], "scenarios": ["fold"], "rule": "see scenario rule"},
+    "C02": {"modules": [], "scenarios": ["cmds"], "rule": "see scenario rule"},
+    "C03": {"modules": [], "scenarios": ["seq"], "rule": "see scenario rule"},
+    "C04": {"modules": [], "scenarios": ["term"], "rule": "see scenario rule"},
+    "C13": {"modules": [], "scenarios": ["api"], "rule": "see scenario rule"},
+    "C16": {"modules": [], "scenarios": ["filter"], "rule": "see scenario rule"},
+    "C20": {
+        "modules": ["Tea.Props.C20"],
+        "streams": [{"name": "every", "quick": 6000, "thorough": 200000}],
+        "scenarios": ["timing"],
+        "rule": "every: Every's delay expression evaluated by Go's time package vs the Lean model on boundary instants (+-1ns), zero/negative/huge durations and seeded random instants; timing: real Tick/Every commands. distinct = distinct (instant, duration) lines; non-trivial = positive duration",
+        "trusted": ["Go timers do not fire before their duration has elapsed (Timer.notEarly hypothesis; sampled by the timing scenario)"],
+    },
 }
